@@ -22,8 +22,9 @@ PROP = {
     "assumptions": ["sub-range views are required to be the corresponding slice of the full-range "
                     "views and to cover [low, high] up to numpy.isclose of high with an edge (the "
                     "library's own convention)",
-                    "2-D grids / projections (plot/hist_numpy.py) and Categorize labels are exercised on "
-                    "the implementation only"],
+                    "2-D grids / projections of Bin(Bin(Count)) and SparselyBin(SparselyBin(Count)) are checked "
+                    "on the implementation against the cells themselves (not modelled); Categorize labels "
+                    "and mpv are not checked"],
 }
 
 KINDS = ["Bin", "SparselyBin", "CentrallyBin", "IrregularlyBin"]
@@ -41,7 +42,73 @@ def close(a, b):
     return abs(a - b) <= 1e-9 * max(1.0, abs(a), abs(b))
 
 
+def gen_2d(r, i, tier):
+    """Bin(Bin(Count)) / SparselyBin(SparselyBin(Count)) over fields 0 and 1, with rows whose y is out of
+    range or NaN; the grid and the projections are checked on the implementation (not modelled)"""
+    sparse = (i % 2 == 1)
+    if sparse:
+        inner = {"k": "SparselyBin", "bw": r.choice([0.5, 1.0, 0.25]), "origin": r.choice([0.0, 0.25]),
+                 "q": {"name": None, "id": 0, "e": ["f", 1]}, "value": {"k": "Count"}, "nan": {"k": "Count"}}
+        spec = {"k": "SparselyBin", "bw": r.choice([0.5, 1.0, 2.0]), "origin": r.choice([0.0, -0.5]),
+                "q": {"name": None, "id": 0, "e": ["f", 0]}, "value": inner, "nan": {"k": "Count"}}
+    else:
+        cnt = {"k": "Count"}
+        inner = {"k": "Bin", "num": r.choice([2, 3, 4]), "low": 0.0, "high": 2.0, "q": {"name": None, "id": 0, "e": ["f", 1]},
+                 "value": cnt, "under": cnt, "over": cnt, "nan": cnt}
+        spec = {"k": "Bin", "num": r.choice([2, 3, 5]), "low": -1.0, "high": 1.5, "q": {"name": None, "id": 0, "e": ["f", 0]},
+                "value": inner, "under": cnt, "over": cnt, "nan": cnt}
+    ops = [("new", spec)]
+    vals = [-1.5, -1.0, -0.5, 0.0, 0.25, 0.5, 1.0, 1.25, 1.5, 2.0, 2.5, 3.0, float("nan")]
+    for _ in range(r.randint(1, 14)):
+        ops.append(("fill", 0, [r.choice(vals), r.choice(vals), 0.0, "a", False], r.choice([1.0, 1.0, 2.0, 0.5])))
+    ops.append(("snapp", 0))
+    return {"ops": ops, "meta": {"twod": True, "sparse": sparse}}
+
+
+def check_2d(h, sparse):
+    fails = []
+
+    def bad(clause, diff):
+        fails.append({"clause": clause, "diff": diff})
+    try:
+        hx, hy = h.project_on_x(), h.project_on_y()
+        xr, yr, grid = h.xy_ranges_grid()
+    except KeyError:
+        return fails if not h.bins else [{"clause": "2-D views answer for a filled histogram", "diff": "KeyError"}]
+    except Exception as e:  # noqa: BLE001
+        return [{"clause": "2-D views answer", "diff": "%s: %s" % (type(e).__name__, e)}]
+    if sparse:
+        cells = {(i, j): c.entries for i, b in h.bins.items() for j, c in b.bins.items()}
+        wantx = {}
+        wanty = {}
+        for (i, j), e in cells.items():
+            wantx[i] = wantx.get(i, 0.0) + e
+            wanty[j] = wanty.get(j, 0.0) + e
+        gotx = {int(k): v.entries for k, v in hx.bins.items()}
+        goty = {int(k): v.entries for k, v in hy.bins.items()}
+        if {k: v for k, v in gotx.items() if v} != {int(k): v for k, v in wantx.items() if v}:
+            bad("the x projection holds exactly the in-range weights  [C13_projection]", "x projection %r, cells give %r" % (gotx, wantx))
+        if {k: v for k, v in goty.items() if v} != {int(k): v for k, v in wanty.items() if v}:
+            bad("the y projection holds exactly the in-range weights  [C13_projection]", "y projection %r, cells give %r" % (goty, wanty))
+        if abs(float(grid.sum()) - sum(cells.values())) > 1e-9:
+            bad("the 2-D grid holds exactly the in-range weights  [C13_grid]", "grid sum %r, cells %r" % (float(grid.sum()), sum(cells.values())))
+    else:
+        cells = [[c.entries for c in b.values] for b in h.values]
+        wantx = [sum(row) for row in cells]
+        wanty = [sum(cells[i][j] for i in range(len(cells))) for j in range(len(cells[0]))]
+        if [v.entries for v in hx.values] != wantx:
+            bad("the x projection holds exactly the in-range weights  [C13_projection]", "x projection %r, cells give %r" % ([v.entries for v in hx.values], wantx))
+        if [v.entries for v in hy.values] != wanty:
+            bad("the y projection holds exactly the in-range weights  [C13_projection]", "y projection %r, cells give %r" % ([v.entries for v in hy.values], wanty))
+        g = [[float(grid[j][i]) for j in range(len(cells[0]))] for i in range(len(cells))]
+        if g != cells:
+            bad("the 2-D grid holds exactly the in-range weights  [C13_grid]", "grid %r, cells %r" % (g, cells))
+    return fails
+
+
 def gen_one(r, i, tier):
+    if i % 6 == 5:
+        return gen_2d(r, i // 6, tier)
     dyadic = (i % 3 != 2)
     g = gen.G(r, dyadic=dyadic, max_depth=1, names=False)
     kind = KINDS[i % 4]
@@ -65,7 +132,7 @@ def gen_one(r, i, tier):
     crit = [v for v in gen.node_criticals(spec) if v == v and abs(v) != gen.INF and abs(v) < 1e12]
     if dyadic:
         crit = [v for v in crit if float(v * 1024).is_integer()]
-    crit = sorted(set(crit)) or [0.0, 1.0]
+    crit = sorted(set(crit + [0.0])) or [0.0, 1.0]
     ops = [("new", spec)]
     n = r.choice([0, r.randint(1, 6), r.randint(4, 14)])
     for _ in range(n):
@@ -127,6 +194,8 @@ def oracle(p, run, exact):
         return []
     m = run["machine"]
     h = m.pool[0]
+    if meta.get("twod"):
+        return check_2d(h, meta["sparse"])
     spec = p["ops"][0][1]
     kind = spec["k"]
     fails = []
@@ -199,6 +268,12 @@ def oracle(p, run, exact):
             bad("the sub-range view starts at or below low  [C13_cover]", rec, "first edge %r" % ed[0])
         if hi is not None and ed[-1] < hi and not close(ed[-1], hi) and not (kind == "Bin" and hi >= spec["high"]):
             bad("the sub-range view ends at or above high  [C13_cover]", rec, "last edge %r" % ed[-1])
+        # ... and is tight: the first bin contains low, the last bin reaches high
+        if lo is not None and len(ed) > 1 and ed[1] <= lo and not close(ed[1], lo) and not math.isinf(ed[1]):
+            bad("the first bin of a sub-range view contains low  [C13_tight]", rec, "second edge %r <= low" % ed[1])
+        if hi is not None and len(ed) > 1 and ed[-2] >= hi and not close(ed[-2], hi) and not math.isinf(ed[-2]) \
+                and not (kind == "Bin" and hi < spec["low"]):
+            bad("the last bin of a sub-range view starts below high  [C13_tight]", rec, "last-but-one edge %r >= high" % ed[-2])
     # probes
     at = full.get("entries_at") or []
     for j, pr in enumerate(meta["probes"]):
